@@ -156,6 +156,49 @@ def run(repo):
     if not ok:
         res.fail(Finding(RULE, fi.fq, 'loop over self.xmat', 'to_socp no longer iterates over every '
                          'exponential cone of the program', repo.where(fi), P))
+    # (h) the heads of the cones the approximation adds are bounded below by zero.  A second-order cone
+    #     x0 >= ||x_rest|| is handed to several solvers as the quadratic inequality x0**2 >= sum x_rest**2,
+    #     which describes the cone only together with x0 >= 0; to_socp therefore sets lb = 0 on every head
+    from .common import pmatch
+    comp = [n for n in walk_no_nested(fi.node) if isinstance(n, ast.ListComp) and 'np.array' in ntext(n.elt)
+            and any((isinstance(a, ast.AugAssign) and isinstance(a.target, ast.Name) and a.value is n) or
+                    (isinstance(a, ast.Assign) and (a.value is n or (isinstance(a.value, ast.BinOp) and a.value.right is n)))
+                    for a in walk_no_nested(fi.node))]
+    if len(comp) != 1:
+        raise AnalysisError('to_socp: the list of cones added per exponential cone was not found')
+    st_c, b, _d = pmatch('[list(_lw + _base + np.array([_h, __, __]) + _q * _str) for _q in range(_n)]', comp[0])
+    if st_c != 'match':
+        raise AnalysisError('to_socp: the added cones `%s` have a form the rule does not interpret' % ntext(comp[0])[:70])
+    lbv = env.get('lb')
+    ext = None        # the vector appended to lb for every exponential cone
+    for d in (defs.get(lbv.id, []) if isinstance(lbv, ast.Name) else []):
+        if isinstance(d, ast.Call) and call_name(d) in ('np.concatenate', 'numpy.concatenate', 'np.hstack') and \
+                isinstance(d.args[0], (ast.Tuple, ast.List)) and len(d.args[0].elts) == 2 and \
+                isinstance(d.args[0].elts[1], ast.Name):
+            ext = d.args[0].elts[1].id
+    if ext is None:
+        raise AnalysisError('to_socp: the lower bounds appended per exponential cone were not found')
+    covered = False
+    near = []
+    for loop in [n for n in walk_no_nested(fi.node) if isinstance(n, ast.For)]:
+        for st_ in loop.body:
+            if isinstance(st_, ast.Assign) and isinstance(st_.targets[0], ast.Subscript) and \
+                    ntext(st_.targets[0].value) == ext and isinstance(st_.value, ast.Constant) and st_.value.value == 0:
+                idx = st_.targets[0].slice
+                ok_i = pmatch('%s + _d * %s + %s' % (b['_base'][1], b['_str'][1], b['_h'][1]), idx)
+                if ok_i[0] == 'match' and isinstance(loop.target, ast.Name) and ok_i[1]['_d'][1] == loop.target.id and \
+                        pmatch('range(%s)' % b['_n'][1], loop.iter)[0] == 'match':
+                    covered = True
+                else:
+                    near.append(ntext(st_)[:50] + ' in `for %s in %s`' % (ntext(loop.target), ntext(loop.iter)[:30]))
+    res.inst({'added cones': ntext(comp[0].elt)[:60], 'heads bounded below by 0': covered}, covered)
+    if not covered:
+        res.fail(Finding(RULE, fi.fq, 'cone heads without lower bound',
+                         'to_socp adds the cones %s (head = first index) but does not set the lower bound 0 on every '
+                         'head column (%s + d*%s + %s for d in range(%s))%s: interfaces that pass a cone as '
+                         'x0**2 >= sum(x_i**2) then get a non-convex, vacuous constraint'
+                         % (ntext(comp[0].elt)[:50], b['_base'][1], b['_str'][1], b['_h'][1], b['_n'][1],
+                            '; found ' + '; '.join(near) if near else ''), repo.where(fi, comp[0]), P))
     # front ends
     for fq in ('gcp.Model.soc_solve', 'ro.Model.soc_solve', 'dro.Model.soc_solve'):
         f2 = repo.func(fq)
